@@ -541,3 +541,87 @@ pub fn int_abs_all<T: AbsI>(idx: u64, cx: &mut Cx) -> CaseResult {
     let tab: Vec<(u64, IdxFn)> = t.iter().map(|(n, f)| (*n as u64 * INT_PAIRS as u64, *f)).collect();
     dispatch(idx, &tab, cx)
 }
+
+// ---------------------------------------------------------------------------------------------
+// A user element type whose three default tolerances are all different (for f32 / f64, default_epsilon and
+// default_max_relative coincide, so a container that forwards the wrong constant is invisible there).
+
+#[derive(Clone, Copy, Debug, PartialEq)]
+pub struct Ap(pub f64);
+pub const AP_EPS: f64 = 1e-9;
+pub const AP_REL: f64 = 0.05;
+pub const AP_ULPS: u32 = 7;
+/// one "unit in the last place" of Ap
+pub const AP_ULP: f64 = 0.001;
+impl AbsDiffEq for Ap {
+    type Epsilon = f64;
+    fn default_epsilon() -> f64 { AP_EPS }
+    fn abs_diff_eq(&self, o: &Self, eps: f64) -> bool { (self.0 - o.0).abs() <= eps }
+}
+impl RelativeEq for Ap {
+    fn default_max_relative() -> f64 { AP_REL }
+    fn relative_eq(&self, o: &Self, eps: f64, rel: f64) -> bool {
+        let d = (self.0 - o.0).abs();
+        d <= eps || d <= self.0.abs().max(o.0.abs()) * rel
+    }
+}
+impl UlpsEq for Ap {
+    fn default_max_ulps() -> u32 { AP_ULPS }
+    fn ulps_eq(&self, o: &Self, eps: f64, ulps: u32) -> bool {
+        let d = (self.0 - o.0).abs();
+        d <= eps || d <= ulps as f64 * AP_ULP * 1.000001
+    }
+}
+
+pub trait ApC<const K: usize>: Flat<Ap, K> + PartialEq + AbsDiffEq<Epsilon = f64> + RelativeEq + UlpsEq {}
+impl<const K: usize, C> ApC<K> for C where C: Flat<Ap, K> + PartialEq + AbsDiffEq<Epsilon = f64> + RelativeEq + UlpsEq {}
+
+/// idx = position p (K positions) + one extra case (all positions perturbed)
+pub fn custom<T, C: ApC<K>, const K: usize>(idx: u64, cx: &mut Cx) -> CaseResult {
+    let _ = std::marker::PhantomData::<T>;
+    let p = idx as usize % K;
+    let a: [Ap; K] = std::array::from_fn(|i| Ap(2.0 + 0.5 * i as f64));
+    sample!(cx, "{}<Ap> defaults (epsilon {}, max_relative {}, max_ulps {}), position {}", C::NAME, AP_EPS, AP_REL, AP_ULPS, p);
+    cx.nontrivial();
+    check_eq!(cx, C::default_epsilon(), AP_EPS, "{}<Ap>::default_epsilon()", C::NAME);
+    check_eq!(cx, C::default_max_relative(), AP_REL, "{}<Ap>::default_max_relative()", C::NAME);
+    check_eq!(cx, C::default_max_ulps(), AP_ULPS, "{}<Ap>::default_max_ulps()", C::NAME);
+    let ca = C::mkf(&a);
+    // (what, b, abs, rel, ulps): the per-element verdicts with the ELEMENT's default tolerances
+    let mut every_1pct = a;
+    for x in every_1pct.iter_mut() { x.0 *= 1.01; }
+    let mut one_10pct = a;
+    one_10pct[p].0 *= 1.10;
+    let mut one_1pct = a;
+    one_1pct[p].0 *= 1.01;
+    let mut one_5ulps = a;
+    one_5ulps[p].0 += 5.0 * AP_ULP;
+    let mut one_9ulps = a;
+    one_9ulps[p].0 += 9.0 * AP_ULP;
+    let mut one_tiny = a;
+    one_tiny[p].0 += 0.5e-9;
+    for (what, b) in [("every position 1% off", every_1pct), ("one position 10% off", one_10pct), ("one position 1% off", one_1pct), ("one position 5 'ulps' off", one_5ulps), ("one position 9 'ulps' off", one_9ulps), ("one position 0.5e-9 off", one_tiny), ("equal", a)] {
+        let cb = C::mkf(&b);
+        let w_abs = (0..K).all(|i| Ap::abs_diff_eq(&a[i], &b[i], AP_EPS));
+        let w_rel = (0..K).all(|i| Ap::relative_eq(&a[i], &b[i], AP_EPS, AP_REL));
+        let w_ulps = (0..K).all(|i| Ap::ulps_eq(&a[i], &b[i], AP_EPS, AP_ULPS));
+        cx.label(what);
+        check_eq!(cx, approx::abs_diff_eq!(ca, cb), w_abs, "{}<Ap>: abs_diff_eq!(a, b) with default tolerances, {}", C::NAME, what);
+        check_eq!(cx, approx::relative_eq!(ca, cb), w_rel, "{}<Ap>: relative_eq!(a, b) with default tolerances (element: epsilon {}, max_relative {}), {}", C::NAME, AP_EPS, AP_REL, what);
+        check_eq!(cx, approx::ulps_eq!(ca, cb), w_ulps, "{}<Ap>: ulps_eq!(a, b) with default tolerances, {}", C::NAME, what);
+        check_eq!(cx, approx::abs_diff_ne!(ca, cb), !w_abs, "{}<Ap>: abs_diff_ne!(a, b), {}", C::NAME, what);
+        check_eq!(cx, approx::relative_ne!(ca, cb), !w_rel, "{}<Ap>: relative_ne!(a, b), {}", C::NAME, what);
+        check_eq!(cx, approx::ulps_ne!(ca, cb), !w_ulps, "{}<Ap>: ulps_ne!(a, b), {}", C::NAME, what);
+        check_eq!(cx, approx::Relative::default().eq(&ca, &cb), w_rel, "{}<Ap>: Relative::default().eq, {}", C::NAME, what);
+        check_eq!(cx, approx::Ulps::default().eq(&ca, &cb), w_ulps, "{}<Ap>: Ulps::default().eq, {}", C::NAME, what);
+        check_eq!(cx, approx::AbsDiff::default().eq(&ca, &cb), w_abs, "{}<Ap>: AbsDiff::default().eq, {}", C::NAME, what);
+        // explicit tolerances, each one deciding alone
+        check_eq!(cx, ca.relative_eq(&cb, 0.0, 0.02), (0..K).all(|i| Ap::relative_eq(&a[i], &b[i], 0.0, 0.02)), "{}<Ap>::relative_eq(b, 0, 0.02), {}", C::NAME, what);
+        check_eq!(cx, ca.ulps_eq(&cb, 0.0, 6), (0..K).all(|i| Ap::ulps_eq(&a[i], &b[i], 0.0, 6)), "{}<Ap>::ulps_eq(b, 0, 6), {}", C::NAME, what);
+    }
+    Ok(())
+}
+pub fn custom_all(idx: u64, cx: &mut Cx) -> CaseResult {
+    let tab: Vec<(u64, IdxFn)> = tables!(custom, Ap, IdxFn).iter().map(|(n, f)| (*n as u64, *f)).collect();
+    dispatch(idx, &tab, cx)
+}
